@@ -317,6 +317,14 @@ def has_unsupported(schema):
     return isinstance(schema, dict) and bool(set(schema) & DOCUMENTED_UNSUPPORTED)
 
 
+def member_is(xs, x):
+    return any(y is x for y in xs)
+
+
+def seen_has(seen, x):
+    return bool(seen) and id(x) in seen
+
+
 def rbd(x):
     from statham.schema.validation import base
     if x is True:
@@ -343,3 +351,11 @@ def namespace():
     ns["NP"] = constants.NotPassed()
     ns["NoneType"] = type(None)
     return ns
+
+
+def members_subset(a, b):
+    return all(any(x is y for y in b) for x in a)
+
+
+def prefix(xs, k):
+    return list(xs)[:k]
